@@ -3,6 +3,8 @@
 
 package sm4
 
+import "unsafe"
+
 // Accessors for the verification harness (build tag `verif` only): the constant tables of
 // the table-driven implementation, so that they can be compared entry by entry with the
 // formulas of GM/T 0002.
@@ -10,4 +12,16 @@ package sm4
 // VerifTables returns copies of sbox, the four T-tables, fk and ck.
 func VerifTables() (s [256]uint8, t [4][256]uint32, f [4]uint32, c [32]uint32) {
 	return sbox, [4][256]uint32{sbox0, sbox1, sbox2, sbox3}, fk, ck
+}
+
+// VerifGate, when set, is called at three points of the block function (after the input block is loaded into
+// the scratch words, after the rounds, after the result is serialised into the scratch bytes) with the
+// address of the call's destination as the identity of the call.  A blocking VerifGate lets a harness
+// execute a chosen interleaving of concurrent calls deterministically.
+var VerifGate func(site string, call uintptr)
+
+func verifGate(site string, dst []byte) {
+	if g := VerifGate; g != nil && len(dst) > 0 {
+		g(site, uintptr(unsafe.Pointer(&dst[0])))
+	}
 }
